@@ -4,3 +4,4 @@ import CLModel.Gen.Tables
 import CLModel.Props.C01
 import CLModel.Props.C20
 import CLModel.Compare.Merge
+import CLModel.Props.C04
